@@ -115,11 +115,16 @@ theorem execBody_cons_next {w : World} {al : List (Val × Val)} {i : Instr} {is 
     execBody w al (i :: is) st = execBody w al is st1 := by
   simp only [execBody, h]
 
-theorem execBody_dce (w : World) {tbl : Opcode → Eff} {f : Func} {L : List Val} (hnf : AliasNF f.alias)
-    (htbl : SoundTable tbl) (hL : liveSet tbl f = some L) :
-    ∀ (is : List Instr) (st st' : St), (∀ i ∈ is, i ∈ f.validInstrs) → StRel (· ∈ L) st st' →
-      BodyRel (· ∈ L) (execBody w f.alias is st)
-        (execBody w f.alias ((is.filter (keeps tbl L)).map (·.mapOperands (res f.alias))) st') := by
+/-- what the simulation needs from the selection `keep` and the set `S` of values that matter -/
+structure Selection (f : Func) (keep : Instr → Bool) (S : Val → Prop) : Prop where
+  kept : ∀ i ∈ f.validInstrs, keep i = true → ∀ o ∈ i.operands, S (res f.alias o)
+  dropped : ∀ i ∈ f.validInstrs, keep i = false → sideEffect i.opcode = .none ∧ ∀ r ∈ i.results, ¬ S r
+
+theorem execBody_dce (w : World) {f : Func} {keep : Instr → Bool} {S : Val → Prop} (hnf : AliasNF f.alias)
+    (hsel : Selection f keep S) :
+    ∀ (is : List Instr) (st st' : St), (∀ i ∈ is, i ∈ f.validInstrs) → StRel S st st' →
+      BodyRel S (execBody w f.alias is st)
+        (execBody w f.alias ((is.filter keep).map (·.mapOperands (res f.alias))) st') := by
   intro is
   induction is with
   | nil => intro st st' _ _; exact .none
@@ -127,10 +132,10 @@ theorem execBody_dce (w : World) {tbl : Opcode → Eff} {f : Func} {L : List Val
     intro st st' hall hst
     have hi := hall i (List.mem_cons_self ..)
     have hall' : ∀ j ∈ is, j ∈ f.validInstrs := fun j hj => hall j (List.mem_cons_of_mem _ hj)
-    by_cases hk : keeps tbl L i = true
+    by_cases hk : keep i = true
     · -- the instruction stays, with resolved operands
-      have hops := keeps_operands_live hL hi hk
-      have hsim := execInstr_sim w (· ∈ L) i hst
+      have hops := hsel.kept i hi hk
+      have hsim := execInstr_sim w S i hst
         (ρ := fun v => st.env (res f.alias v)) (ρ' := fun v => st'.env (res f.alias (res f.alias v)))
         (fun o ho => by
           show st.env (res f.alias o) = st'.env (res f.alias (res f.alias o))
@@ -146,26 +151,25 @@ theorem execBody_dce (w : World) {tbl : Opcode → Eff} {f : Func} {L : List Val
       | goto b args h => exact .some (.goto b args h)
       | ret vs h => exact .some (.ret vs h)
       | trap c h => exact .some (.trap c h)
-    · -- the instruction goes: it has no side effect and nothing live reads its result
-      have hk' : keeps tbl L i = false := by simpa using hk
-      simp only [keeps, Bool.or_eq_false_iff, decide_eq_false_iff_not, Decidable.not_not,
-        List.any_eq_false, decide_eq_true_eq] at hk'
+    · -- the instruction goes: it has no side effect and nothing that matters reads its result
+      have hk' : keep i = false := by simpa using hk
+      obtain ⟨hpure, hres⟩ := hsel.dropped i hi hk'
       obtain ⟨st1, hex, hmem, htr, henv⟩ :=
-        exec_pure w (fun v => st.env (res f.alias v)) i st (htbl _ hk'.1)
+        exec_pure w (fun v => st.env (res f.alias v)) i st hpure
       rw [execBody_cons_next hex]
-      have : (List.filter (keeps tbl L) (i :: is)) = List.filter (keeps tbl L) is := by
-        simp [List.filter_cons, hk]
+      have : (List.filter keep (i :: is)) = List.filter keep is := by
+        simp [hk]
       rw [this]
       refine ih st1 st' hall' ⟨fun v hv => ?_, by rw [hmem]; exact hst.mem, by rw [htr]; exact hst.trace⟩
-      rw [henv v (fun hvr => hk'.2 v hvr hv)]
+      rw [henv v (fun hvr => hres v hvr hv)]
       exact hst.env v hv
 
-theorem findBlock_dce {tbl : Opcode → Eff} {f : Func} {L : List Val} (b : BlockId) :
+theorem findBlock_dce {f : Func} {keep : Instr → Bool} (b : BlockId) :
     ({ f with blocks := f.blocks.map (fun B =>
         if B.invalid then B
-        else { B with instrs := (B.instrs.filter (keeps tbl L)).map (·.mapOperands (res f.alias)) }) } : Func).findBlock b =
+        else { B with instrs := (B.instrs.filter keep).map (·.mapOperands (res f.alias)) }) } : Func).findBlock b =
     (f.findBlock b).map (fun B =>
-        { B with instrs := (B.instrs.filter (keeps tbl L)).map (·.mapOperands (res f.alias)) }) := by
+        { B with instrs := (B.instrs.filter keep).map (·.mapOperands (res f.alias)) }) := by
   simp only [Func.findBlock]
   rw [find?_map_of_comm]
   · cases h : f.blocks.find? (fun B => decide (B.id = b ∧ ¬B.invalid = true)) with
@@ -183,13 +187,13 @@ theorem instrs_valid {f : Func} {B : Block} (hB : B ∈ f.blocks) (hv : B.invali
   simp only [Func.validInstrs, Func.validBlocks, List.mem_flatMap, List.mem_filter]
   exact ⟨B, ⟨hB, by simp [hv]⟩, hi⟩
 
-theorem runFrom_dce (w : World) {tbl : Opcode → Eff} {f : Func} {L : List Val} (hnf : AliasNF f.alias)
-    (htbl : SoundTable tbl) (hL : liveSet tbl f = some L) :
-    ∀ (n : Nat) (b : BlockId) (args : List Nat) (st st' : St), StRel (· ∈ L) st st' →
+theorem runFrom_dce (w : World) {f : Func} {keep : Instr → Bool} {S : Val → Prop} (hnf : AliasNF f.alias)
+    (hsel : Selection f keep S) :
+    ∀ (n : Nat) (b : BlockId) (args : List Nat) (st st' : St), StRel S st st' →
       runFrom w f n b args st =
       runFrom w { f with blocks := f.blocks.map (fun B =>
         if B.invalid then B
-        else { B with instrs := (B.instrs.filter (keeps tbl L)).map (·.mapOperands (res f.alias)) }) }
+        else { B with instrs := (B.instrs.filter keep).map (·.mapOperands (res f.alias)) }) }
         n b args st' := by
   intro n
   induction n with
@@ -205,10 +209,10 @@ theorem runFrom_dce (w : World) {tbl : Opcode → Eff} {f : Func} {L : List Val}
       simp only [Option.map_some]
       split
       · rfl
-      · have hst1 : StRel (· ∈ L) { st with env := bindVals st.env B.params args }
+      · have hst1 : StRel S { st with env := bindVals st.env B.params args }
             { st' with env := bindVals st'.env B.params args } :=
           ⟨bindVals_agree _ _ hst.env, hst.mem, hst.trace⟩
-        have hb := execBody_dce w hnf htbl hL B.instrs _ _ (instrs_valid hBm hBv) hst1
+        have hb := execBody_dce w hnf hsel B.instrs _ _ (instrs_valid hBm hBv) hst1
         revert hb
         generalize execBody w f.alias B.instrs _ = r
         generalize execBody w f.alias _ _ = r'
@@ -229,21 +233,102 @@ theorem entry_map (f : Func) (g : Block → Block) (h : ∀ B, (g B).id = B.id) 
   | nil => rfl
   | cons B Bs => simp [h]
 
+/-- the selection of `dceWith` and the live set satisfy what the simulation needs -/
+theorem selection_keepFn {tbl : Opcode → Eff} (htbl : SoundTable tbl) (f : Func) :
+    ∃ S : Val → Prop, Selection f (keepFn tbl f) S := by
+  unfold keepFn
+  cases hL : liveSet tbl f with
+  | none => exact ⟨fun _ => True, fun _ _ _ _ _ => trivial, fun _ _ h => by cases h⟩
+  | some L =>
+    refine ⟨(· ∈ L), fun i hi hk => keeps_operands_live hL hi hk, fun i _ hk => ?_⟩
+    simp only [keeps, Bool.or_eq_false_iff, decide_eq_false_iff_not, Decidable.not_not,
+      List.any_eq_false, decide_eq_true_eq] at hk
+    exact ⟨htbl _ hk.1, hk.2⟩
+
 /-- **Dead-code elimination is sound** for every sound side-effect table. -/
 theorem dceWith_sound (w : World) (tbl : Opcode → Eff) (f : Func) (hnf : AliasNF f.alias)
     (htbl : SoundTable tbl) (args : List Nat) (fuel : Nat) :
     run w (dceWith tbl f) args fuel = run w f args fuel := by
+  obtain ⟨S, hsel⟩ := selection_keepFn htbl f
   unfold dceWith
-  cases hL : liveSet tbl f with
-  | none => rfl
-  | some L =>
-    simp only [run]
-    rw [entry_map]
-    · exact (runFrom_dce w hnf htbl hL fuel _ args St.init St.init ⟨fun _ _ => rfl, rfl, rfl⟩).symm
-    · intro B; by_cases hB : B.invalid = true <;> simp [hB]
+  simp only [run]
+  rw [entry_map]
+  · exact (runFrom_dce w hnf hsel fuel _ args St.init St.init ⟨fun _ _ => rfl, rfl, rfl⟩).symm
+  · intro B; by_cases hB : B.invalid = true <;> simp [hB]
 
 theorem dce_sound (w : World) (f : Func) (hnf : AliasNF f.alias) (args : List Nat) (fuel : Nat) :
     run w (dce f) args fuel = run w f args fuel :=
   dceWith_sound w sideEffect f hnf soundTable_sideEffect args fuel
+
+/-! ### after the pass the alias table is not needed any more -/
+
+theorem execBody_no_alias (w : World) (al : List (Val × Val)) :
+    ∀ (is : List Instr) (st : St), (∀ i ∈ is, ∀ o ∈ i.operands, res al o = o) →
+      execBody w [] is st = execBody w al is st := by
+  intro is
+  induction is with
+  | nil => intro st _; rfl
+  | cons i is ih =>
+    intro st h
+    simp only [execBody]
+    rw [execInstr_congr w i st (ρ := fun v => st.env (res [] v)) (ρ' := fun v => st.env (res al v))
+      (fun o ho => by show st.env (res [] o) = st.env (res al o); rw [res_nil, h i (List.mem_cons_self ..) o ho])]
+    cases execInstr w (fun v => st.env (res al v)) i st with
+    | next st1 => exact ih st1 (fun j hj => h j (List.mem_cons_of_mem _ hj))
+    | goto _ _ _ => rfl
+    | ret _ _ => rfl
+    | trap _ _ => rfl
+
+theorem run_no_alias (w : World) (f : Func)
+    (h : ∀ B ∈ f.blocks, B.invalid = false → ∀ i ∈ B.instrs, ∀ o ∈ i.operands, res f.alias o = o)
+    (args : List Nat) (fuel : Nat) : run w { f with alias := [] } args fuel = run w f args fuel := by
+  simp only [run]
+  have hentry : ({ f with alias := [] } : Func).entry = f.entry := rfl
+  rw [hentry]
+  generalize f.entry = b
+  generalize St.init = st
+  induction fuel generalizing b args st with
+  | zero => rfl
+  | succ n ih =>
+    simp only [runFrom]
+    have hfb : ({ f with alias := [] } : Func).findBlock b = f.findBlock b := rfl
+    rw [hfb]
+    cases hT : f.findBlock b with
+    | none => rfl
+    | some T =>
+      obtain ⟨hTm, _, hTv⟩ := findBlock_mem hT
+      simp only []
+      split
+      · rfl
+      · rw [execBody_no_alias w f.alias T.instrs _ (h T hTm hTv)]
+        cases execBody w f.alias T.instrs _ with
+        | none => rfl
+        | some c =>
+          cases c with
+          | next _ => rfl
+          | goto b' args' st' => exact ih args' b' st'
+          | ret _ _ => rfl
+          | trap _ _ => rfl
+
+/-- after dead-code elimination every operand is resolved: the function means the same without the table -/
+theorem dceWith_no_alias (w : World) (tbl : Opcode → Eff) (f : Func) (hnf : AliasNF f.alias)
+    (args : List Nat) (fuel : Nat) :
+    run w { dceWith tbl f with alias := [] } args fuel = run w (dceWith tbl f) args fuel := by
+  apply run_no_alias
+  intro B' hB' hBv i hi o ho
+  simp only [dceWith] at hB'
+  obtain ⟨B, hB, hBB⟩ := List.mem_map.mp hB'
+  by_cases hinv : B.invalid = true
+  · simp only [hinv, if_true] at hBB
+    subst hBB
+    rw [hinv] at hBv; cases hBv
+  · simp only [hinv, if_false] at hBB
+    subst hBB
+    obtain ⟨j, _, hji⟩ := List.mem_map.mp hi
+    subst hji
+    rw [mapOperands_operands] at ho
+    obtain ⟨o', _, ho'⟩ := List.mem_map.mp ho
+    subst ho'
+    exact res_idem hnf o'
 
 end Wz.Model.SsaPass
